@@ -10,6 +10,19 @@ def harness(c, n, replay_ops=None):
 
 
 def run(c):
+    c.assumptions += [
+        "limits: TakeMsg never times out (the model has no capacity; the harness gives every scope 16 permits and a session holds at most one)",
+        "targets, checks and modifiers are the scripted ones of harness/internal/verifshim/vc03 (results are a function of the MAIL/RCPT addresses and the X-Vc03 header field); "
+        "a target operation either returns nil or an error, it does not panic or block",
+        "one global check, one global modifier, per-domain destination blocks with 0-3 targets; no source blocks, no per-destination checks/modifiers, no nested pipelines, no recipient rewriting",
+        "go-smtp's parser and the TCP layer are outside the model: the model starts from the parsed command (token) and its well-formedness class; "
+        "BDAT is only sent while the server holds an accepted recipient (a BDAT refused with 502 leaves its chunk on the wire to be parsed as commands)",
+        "LMTP success theorem: proved for recipients whose address was accepted once in the transaction (C03_lmtp_success_stmt is the unrestricted statement; duplicates are covered by the differential runs only)",
+    ]
+    c.trusted_base += [
+        "go-smtp fork github.com/foxcpp/go-smtp@v1.21.4-0.20250124171104-c8519ae4fb23 (conn.go) is modelled by hand as 'which Session callbacks a command triggers'; tied by T2 only",
+        "the Go map iteration order of msgpipelineDelivery.deliveries is an oracle argument of the model (all theorems quantify over it); the harness reads the order off the target call log",
+    ]
     c.lean("C03")
     if c.replay:
         harness(c, 1, replay_ops=c.replay.get("replay_ops") or [])
@@ -23,12 +36,13 @@ def run(c):
     return c.finish(
         rule="random SMTP and LMTP sessions against a REAL endpoint over loopback TCP (go-smtp server + maddy Session + msgpipeline built from configuration text): "
         "command scripts over {EHLO/LHLO/HELO (valid, wrong protocol, no argument, repeated mid-transaction), AUTH (good, bad), MAIL (ASCII, upper-case domain, null, non-ASCII with and without SMTPUTF8, "
-        "syntax error, unknown parameter, oversize SIZE), RCPT (6 ids x 3 routed domains, upper-case domain, non-ASCII, syntax error, duplicate), DATA (plain, too many Received, oversize header, "
-        "argument, cut in the middle + disconnect), BDAT (single LAST chunk, first chunk, more chunks, LAST chunk, no argument), RSET, NOOP, VRFY, unknown command, QUIT, abrupt disconnect}, "
+        "syntax error, unknown parameter, oversize SIZE, nested), RCPT (6 ids x 3 routed domains, upper-case domain, non-ASCII, syntax error, duplicate), DATA (plain, too many Received, oversize header, "
+        "argument, cut in the middle + disconnect), BDAT (single LAST chunk, first chunk, more chunks, LAST chunk, no argument), RSET, NOOP, VRFY, unknown command (incl. too many errors), QUIT, abrupt disconnect}, "
         "with and without pipelining, deferred-reject and immediate-reject modes, 1-3 scripted targets (atomic or partial) behind generated routes (1-3 targets or a reject per domain), "
         "failures (temporary/permanent, density 0-70%) injected into check (connection, sender, recipient, body), modifier (init, sender, recipient, body) and every target operation "
         "(Start, AddRcpt, Body, per-recipient BodyNonAtomic status, Commit, Abort); observation = every reply code + per-target call log of every delivery + leaked permits + recovered panics, "
-        "compared with the Lean model run on the same script (map iteration order of the fan-outs supplied as an oracle); distinct = distinct scripts",
+        "compared with the Lean model run on the same script (map iteration order of the fan-outs supplied as an oracle); distinct = distinct scripts; "
+        "independently the typestate / reply / permit monitor (c03Monitor) judges every real session",
         explanation="theorems over all command lists, configurations, fault plans and fan-out orders; the model (go-smtp connection layer + Session + msgpipelineDelivery) is tied to the code by differential runs of whole sessions",
         search=search,
     )
